@@ -44,6 +44,13 @@ def special_sources():
     add('PROGRAM f IN a OUT a DO a := a + 1 END\nx0 := RUN f WITH 3 END\n')                 # OUT equal to a parameter
     add('PROGRAM f DO x0 := 7 END\nx1 := RUN f WITH END\n')                                   # no parameters (header without IN)
     add('PROGRAM f IN a DO STOP END\nx1 := RUN f WITH 2 END\n')                               # no body variables
+    # jumps whose mark is not set in the body they stand in (misspelt, set only in the main program, set only in another
+    # program): must be rejected; if accepted, the jump must still land inside its routine
+    add('PROGRAM dec IN n OUT r DO\n  IF n = 0 THEN GOTO done;\n  r := n - 1;\n  dne: r := r + 0\nEND\na := RUN dec WITH 0 END\n')
+    add('PROGRAM p IN n DO\n  GOTO out;\n  x0 := n\nEND\nout: a := RUN p WITH 1 END\n')
+    add('PROGRAM p IN n DO\n  here: x0 := n\nEND\nPROGRAM q IN n DO\n  GOTO here;\n  x0 := n\nEND\na := RUN q WITH 1 END\n')
+    add('a := 1;\nGOTO inside;\nb := 2\n')
+    add('PROGRAM p IN n DO\n  WHILE n != 0 DO\n    IF n = 1 THEN GOTO leave;\n    n := n - 1\n  END\nEND\na := RUN p WITH 3 END\n')
     add('PROGRAM f IN a DO x0 := a END\nPROGRAM f IN a, b DO x0 := RUN f WITH b END END\nx1 := RUN f WITH 1, 2 END\n')   # redefinition
     add('PROGRAM f IN a, a OUT a DO a := 1 END\nx := RUN f WITH 3, 4 END\n')                  # repeated parameter (rejected after D5)
     add('PROGRAM f IN a OUT r DO r := a END PROGRAM g IN b OUT r DO r := RUN f WITH RUN f WITH b END END END x0 := RUN g WITH RUN g WITH 1 END END\n')
